@@ -104,7 +104,7 @@ def run_case(case):
                 res['viol'].append(('position-tag', '%s: position line %d, written on line %d' % (tname, t.position.line, lineno + 1 + li0), text))
         # writer round trip
         try:
-            w1 = st['ap'].GtkDocCommentBlockWriter(indent=rng.random() < 0.5).write(block)
+            w1 = st['ap'].GtkDocCommentBlockWriter(indent=rng.random() < 0.5).write(block).rstrip('\n')
             b2, ev2 = parse(st, w1, '/src/foo.c', lineno)
             if b2 is None:
                 res['viol'].append(('roundtrip-lost', 'block written by the comment writer does not parse', w1))
@@ -114,9 +114,9 @@ def run_case(case):
             if d:
                 res['viol'].append(('roundtrip:' + d.split(':')[0].split('[')[0].strip('/'), 'write+parse changed the block: ' + d, text + '\n--- written ---\n' + w1))
                 continue
-            w2 = st['ap'].GtkDocCommentBlockWriter(indent=True).write(b2)
+            w2 = st['ap'].GtkDocCommentBlockWriter(indent=True).write(b2).rstrip('\n')
             b3, _ = parse(st, w2, '/src/foo.c', lineno)
-            w3 = st['ap'].GtkDocCommentBlockWriter(indent=True).write(b3)
+            w3 = st['ap'].GtkDocCommentBlockWriter(indent=True).write(b3).rstrip('\n')
             if w2 != w3:
                 res['viol'].append(('roundtrip-fixpoint', 'writer output is not a fixed point', w2 + '\n---\n' + w3))
             res['hits']['roundtrip'] += 1
@@ -265,7 +265,7 @@ def run(args):
                      '#params, description, #tags, EOL, indent, split, colon, tag case) plus one class per annotation name used; '
                      'non-trivial = parsed tree compared with the model')
     st = setup_subject()
-    n = int((700 if args.tier == 'quick' else 60000) * args.scale)
+    n = int((4000 if args.tier == "quick" else 150000) * args.scale)
     nl = 5
     cases = [(args.seed, i, nl) for i in range(n)]
     B = 20
